@@ -80,7 +80,15 @@ def replay_mono(inp):
                 continue
             cf = CF.read(os.path.join(d, 'convolved', 'MO%03d.fits' % (j + 1)))
             col = src[float(wd[j])]
+            cw = cf.central_wavelength.to(u.micron).value if cf.central_wavelength is not None else None
+            if cw is None or not np.isclose(float(cw), float(wd[j]), rtol=1e-9):
+                return True, {'file': 'MO%03d' % (j + 1), 'FILTWAV': None if cw is None else float(cw), 'wavelength_of_the_slice_it_holds': float(wd[j])}
+            if not np.allclose(cf.apertures.to(u.au).value, np.array(inp['ap'], dtype=float), rtol=1e-9):
+                return True, {'file': 'MO%03d' % (j + 1), 'apertures': cf.apertures.to(u.au).value.tolist(), 'expected': inp['ap']}
             for r, nme in enumerate(names[i] for i in inp['par_order']):
+                wante = np.array(inp['err'][nme], dtype=float)[:, col]
+                if not np.allclose(cf.error[r].value, wante, rtol=1e-6):
+                    return True, {'file': 'MO%03d' % (j + 1), 'row': r, 'error_got': cf.error[r].value.tolist(), 'error_want': wante.tolist()}
                 wantf = np.array(inp['flux'][nme], dtype=float)[:, col]
                 if str(cf.model_names[r]).strip() != nme or not np.allclose(cf.flux[r].value, wantf, rtol=1e-6):
                     return True, {'file': 'MO%03d' % (j + 1), 'row': r, 'got': cf.flux[r].value.tolist(), 'want': wantf.tolist()}
